@@ -152,6 +152,22 @@ def gen_head(rng, adversarial):
     return head
 
 
+ATTACH_HREFS = ['data:text/plain,DOC1', 'data:text/csv;base64,YSxiCjEsMgo=', 'data:,', 'missing-doc-file.bin',
+                'data:text/plain,hello', None]
+
+
+def gen_attach_head(rng):
+    """<link rel=attachment> elements: href (fetchable data: URL, a file that does not exist, or missing), title."""
+    return [{'href': rng.choice(ATTACH_HREFS), 'title': rng.choice([None, None, 'Desc é (x)', ''])}
+            for _ in range(rng.choice([0, 0, 0, 1, 2, 3]))]
+
+
+def gen_attach_option(rng):
+    """Attachment objects passed as the `attachments` option of write_pdf."""
+    return [{'content': rng.choice(['opt-a', '', 'zzz é']), 'name': rng.choice([None, 'b é.txt', 'a.txt', 'data.csv']),
+             'description': rng.choice([None, 'opt desc', ''])} for _ in range(rng.choice([0, 0, 0, 1, 2]))]
+
+
 def gen_doc(rng, adversarial=False, size=None):
     counter = iter(range(10 ** 6))
     n_blocks = size if size is not None else rng.choice([0, 1, 2, 4, 6, 10, 16, 30])
@@ -161,13 +177,15 @@ def gen_doc(rng, adversarial=False, size=None):
         'width': 200, 'height': rng.choice([60, 80, 100, 140, 300]), 'margin': rng.choice([0, 0, 8]),
         'zoom': rng.choice([1, 1, 2, 0.5]), 'lang': rng.choice([None, None, 'fr', 'en-GB', '']),
         'head': gen_head(rng, adversarial), 'blocks': blocks,
+        'attach_head': gen_attach_head(rng), 'attach_option': gen_attach_option(rng),
     }
 
 
 # ------------------------------------------------------------------ serialisation
 
 def attr(value):
-    return html_mod.escape(value, quote=True)
+    # a raw CR would be turned into LF by the HTML input-stream preprocessing: write it as a reference
+    return html_mod.escape(value, quote=True).replace('\r', '&#13;')
 
 
 def link_html(link):
@@ -243,9 +261,13 @@ def doc_html(spec):
     head = []
     for el in spec['head']:
         if el[0] == 'title':
-            head.append(f'<title>{html_mod.escape(el[1], quote=False)}</title>')
+            head.append(f'<title>{html_mod.escape(el[1], quote=False)}</title>'.replace('\r', '&#13;'))
         else:
             head.append(f'<meta name="{attr(el[1])}" content="{attr(el[2])}">')
+    for el in spec.get('attach_head') or ():
+        href = '' if el['href'] is None else f' href="{attr(el["href"])}"'
+        title = '' if el['title'] is None else f' title="{attr(el["title"])}"'
+        head.append(f'<link rel="attachment"{href}{title}>')
     lang = '' if spec['lang'] is None else f' lang="{attr(spec["lang"])}"'
     style = (f'@page{{size:{spec["width"]}px {spec["height"]}px;margin:{spec["margin"]}px}}'
              'body{margin:0;font:20px/20px weasyprint}'
@@ -399,7 +421,8 @@ class Pdf:
         self.pages = [self.objects[n] for n in self.page_numbers]
 
     def outline_objects(self):
-        return sorted(n for n, o in self.objects.items() if isinstance(o, dict) and 'Title' in o and 'Dest' in o)
+        return sorted(n for n in self.objects.numbers_with(b'/Title') if isinstance(self.objects[n], dict) and
+                      'Title' in self.objects[n] and 'Dest' in self.objects[n])
 
     def outline_wire(self):
         """Same canonical form as the direct add_outlines section."""
@@ -491,6 +514,50 @@ class Pdf:
                     dests.append([esc(str(key)), self.page_numbers.index(int(value[0])), value[2], value[3]])
         return sx.dumps(pages) + ' ' + sx.dumps(dests)
 
+    def attachments_wire(self):
+        """Per page the /FileAttachment annotations, the link-level file specifications (creation order), the
+        document-level ones and the /EmbeddedFiles name array — the output form of `docatt`."""
+        import hashlib
+        filespecs = sorted(n for n in self.objects.numbers_with(b'/Filespec') if isinstance(self.objects[n], dict) and
+                           str(self.objects[n].get('Type')) == 'Filespec')
+        embedded, names = [], None
+        catalog_names = self.catalog.get('Names', {})
+        if 'EmbeddedFiles' in catalog_names:
+            array = c18_pdf.deref(self.objects, catalog_names['EmbeddedFiles'])['Names']
+            embedded = sorted({int(r) for r in array[1::2]})
+            names = [[esc(key.raw.decode('utf-8', errors='replace')), embedded.index(int(ref))]
+                     for key, ref in zip(array[::2], array[1::2])]
+        link_level = [n for n in filespecs if n not in embedded]
+
+        def spec(n):
+            o = self.objects[n]
+            stream = self.objects[int(o['EF']['F'])]
+            data = stream['__stream__']
+            params = stream['Params']
+            ok = (o['F'].raw == str(o['UF']).encode('utf-8') and int(params['Size']) == len(data) and
+                  params['CheckSum'].raw == hashlib.md5(data).digest() and str(stream.get('Type')) == 'EmbeddedFile')
+            if not ok:
+                return ['bad-filespec', n]
+            return [esc(str(o['UF'])), esc(str(stream['Subtype'])), len(data), esc(str(o['Desc']))]
+        pages = []
+        for page in self.pages:
+            annots = []
+            for r in page.get('Annots', []):
+                a = self.objects[int(r)]
+                if str(a.get('Subtype')) == 'FileAttachment':
+                    fs = int(a['FS'])
+                    annots.append([link_level.index(fs) if fs in link_level else 'lost'] + list(a['Rect']))
+            pages.append(annots)
+        return (sx.dumps(pages) + ' ' + sx.dumps([spec(n) for n in link_level]) + ' ' +
+                sx.dumps([spec(n) for n in embedded]) + ' ' + sx.dumps(names))
+
+    def embedded_contents(self):
+        names = self.catalog.get('Names', {})
+        if 'EmbeddedFiles' not in names:
+            return []
+        array = c18_pdf.deref(self.objects, names['EmbeddedFiles'])['Names']
+        return [self.objects[int(self.objects[int(ref)]['EF']['F'])]['__stream__'] for ref in array[1::2]]
+
     def info_wire(self):
         out = []
         for key in ('Title', 'Author', 'Subject', 'Keywords', 'Creator', 'CreationDate', 'ModDate'):
@@ -504,9 +571,26 @@ class Pdf:
 # ------------------------------------------------------------------ the sections
 
 def render_spec(spec):
+    from weasyprint import Attachment
     document = docs.render(doc_html(spec))
-    data = document.write_pdf(zoom=spec['zoom'], uncompressed_pdf=True)
+    options = [Attachment(string=a['content'], name=a['name'], description=a['description'])
+               for a in spec.get('attach_option') or ()]
+    data = document.write_pdf(zoom=spec['zoom'], uncompressed_pdf=True, full_fonts=True, attachments=options or None)
     return document, Pdf(data)
+
+
+def fetch_model(url):
+    """What the default fetcher delivers for a URL of the generated documents: the `Att` the model reads.
+    data: URLs are decoded by the standard library; anything else is a file that does not exist."""
+    import urllib.request
+    from os.path import basename
+    from urllib.parse import unquote, urlsplit
+    size = None
+    if url.startswith('data:'):
+        with urllib.request.urlopen(url) as response:
+            size = len(response.read())
+    url_base = basename(unquote(urlsplit(url).path)) if urlsplit(url).path else None
+    return {'size': size, 'name': None, 'urlBase': url_base, 'description': None}
 
 
 def base_url():
@@ -622,6 +706,32 @@ def add_document_cases(secs, spec, run, stats):
     else:
         stats['float_rounding_skipped'] += 1
 
+    # attachments (document level: <link rel=attachment>, write_pdf(attachments=…); link level: <a rel=attachment>)
+    from harness import c18_attach as A
+    if six_decimals(coords):
+        base = base_url()
+        head_links = [[None if el['href'] is None else esc(urllib.parse.urljoin(base, el['href'])),
+                       None if el['title'] is None else esc(el['title'])] for el in spec['attach_head']]
+        urls = {urllib.parse.urljoin(base, el['href']) for el in spec['attach_head'] if el['href'] is not None}
+        urls |= {t for p in document.pages for k, t, _, _ in p.links if k == 'attachment'}
+        table = {u: fetch_model(u) for u in sorted(urls)}
+        option_atts = [{'size': len(a['content'].encode()), 'name': a['name'], 'urlBase': None,
+                        'description': a['description']} for a in spec['attach_option']]
+        line = sx.line('docatt', A.guesses_for(list(table.values()) + option_atts),
+                       [[esc(u), A.att_wire(a)] for u, a in table.items()], head_links,
+                       [A.att_wire(a) for a in option_atts],
+                       [[scale, G.frac(p.height), [[esc(t)] + [G.frac(v) for v in rect]
+                                                   for k, t, rect, _ in p.links if k == 'attachment']]
+                        for p in document.pages])
+        n_link = sum(1 for p in document.pages for l in p.links if l[0] == 'attachment')
+        secs['attach'].add(line, pdf.attachments_wire(), meta=meta,
+                           nontrivial=bool(n_link or spec['attach_head'] or spec['attach_option']),
+                           tags=[t for t, c in (('link-level', n_link), ('link-rel-attachment', spec['attach_head']),
+                                                ('option', spec['attach_option']),
+                                                ('failing', any(a['size'] is None for a in table.values())),
+                                                ('missing-href', any(el['href'] is None for el in spec['attach_head'])))
+                                 if c])
+
     # metadata
     head = [['title', G.cps(el[1])] if el[0] == 'title' else ['meta', G.cps(el[1]), G.cps(el[2])] for el in spec['head']]
     secs['info'].add(sx.line('info', None if spec['lang'] is None else G.cps(spec['lang']), head), pdf.info_wire(),
@@ -671,6 +781,11 @@ def document_sections(prop, run):
             'doc-pdf-links', '/Annots of every page (Rect, Dest / URI, FileAttachment) and the sorted /Names /Dests '
             'array against resolve_links + add_links + sorted() of the model run on Page.links / Page.anchors; '
             'non-trivial = at least one link and one anchor'),
+        'attach': run.section(
+            'doc-attachments', '/FileAttachment annotations of every page (Rect, which embedded file), the embedded '
+            'files of attachment links (one per URL, creation order) and of <link rel=attachment> / '
+            'write_pdf(attachments=…) with the /EmbeddedFiles name array (names, descriptions, MIME subtype, size; '
+            'content and MD5 checked) against the attachment model; non-trivial = the document has an attachment'),
         'info': run.section(
             'doc-info', '/Info (Title Author Subject Keywords Creator CreationDate ModDate) and /Lang against the '
             'metadata model run on the generated <title>/<meta>/lang; non-trivial = at least one head element'),
@@ -680,7 +795,7 @@ def document_sections(prop, run):
     }
     stats = collections.Counter()
     rng = run.rng
-    for i in range(run.n(260, 4200)):
+    for i in range(run.n(200, 3600)):
         spec = gen_doc(rng, size=80 if i % 97 == 96 else None)
         add_document_cases(secs, spec, run, stats)
     run.extra['float_rounding_skipped'] = stats['float_rounding_skipped']
@@ -697,6 +812,11 @@ def nearest_smaller_depths(levels):
         stack.append(level)
         out.append(len(stack))
     return out
+
+
+def close(got, want):
+    """Equal up to the 6 decimal places pydyf writes."""
+    return len(got) == len(want) and all(abs(F(a) - F(b)) <= F(1, 10 ** 6) for a, b in zip(got, want))
 
 
 def has_transform(spec):
@@ -793,7 +913,7 @@ def oracle(spec):
             page, box = first_box[block['k']]
             dest = pdf.objects[number]['Dest']
             want = to_pdf(page, *box.hit_area()[:2])
-            if (dest[2], dest[3]) != want:
+            if not close((dest[2], dest[3]), want):
                 return (f'outline {block["label"]!r} points to {(dest[2], dest[3])}; the top-left corner of its '
                         f'element is at {want} (PDF points)'), None
     # (2) links
@@ -834,7 +954,7 @@ def oracle(spec):
             raw = next(n for n in wanted_names if esc(n) == name)
             page, box = first_anchor_box[raw]
             want = to_pdf(page, *box.hit_area()[:2])
-            if (F(x), F(y)) != want:
+            if not close((F(x), F(y)), want):
                 return (f'destination {raw!r} points to {(F(x), F(y))}; the first element carrying it is at {want} '
                         f'(PDF points)'), None
         for annots, page in zip(links_wire, document.pages):
@@ -843,7 +963,7 @@ def oracle(spec):
             for annot, link in zip(annots, kept):
                 x, y, w, h = link[3].hit_area()
                 want = to_pdf(page, x, y) + to_pdf(page, x + w, y + h)
-                if tuple(F(v) for v in annot[-4:]) != want:
+                if not close(tuple(F(v) for v in annot[-4:]), want):
                     return (f'annotation of link {link[:2]} has Rect {[str(v) for v in annot[-4:]]}; its box covers '
                             f'{[str(v) for v in want]} (PDF points)'), None
     expected_links = [l for l in spec_links(spec)]
@@ -865,6 +985,36 @@ def oracle(spec):
     if seen != [(l['k'], l['type'], l['target']) for l in expected_links]:
         return (f'link elements {seen} are not the links of the document '
                 f'{[(l["k"], l["type"], l["target"]) for l in expected_links]}'), None
+    # (2b) attachments: document level unchanged and in order, link level one annotation per readable link box
+    import urllib.request
+    want_files = []
+    for el in spec.get('attach_head') or ():
+        if el['href'] is None or not el['href'].startswith('data:'):
+            continue
+        with urllib.request.urlopen(el['href']) as response:
+            want_files.append((el['title'] or '', response.read()))
+    for a in spec.get('attach_option') or ():
+        want_files.append((a['description'] or '', a['content'].encode()))
+    names = pdf.catalog.get('Names', {})
+    got_files = []
+    if 'EmbeddedFiles' in names:
+        array = c18_pdf.deref(pdf.objects, names['EmbeddedFiles'])['Names']
+        for ref in array[1::2]:
+            filespec = pdf.objects[int(ref)]
+            got_files.append((str(filespec['Desc']), pdf.objects[int(filespec['EF']['F'])]['__stream__']))
+    if got_files != want_files:
+        return (f'embedded files {[(d, c[:20]) for d, c in got_files]}; attachments of the document '
+                f'{[(d, c[:20]) for d, c in want_files]}'), None
+    for index, (page, pdf_page) in enumerate(zip(document.pages, pdf.pages)):
+        want_n = sum(1 for k, t, _, _ in page.links if k == 'attachment' and t.startswith('data:'))
+        got_n = sum(1 for r in pdf_page.get('Annots', [])
+                    if str(pdf.objects[int(r)].get('Subtype')) == 'FileAttachment')
+        if got_n != want_n:
+            return f'page {index}: {got_n} file attachment annotations for {want_n} attachment link boxes', None
+    distinct = {t for page in document.pages for k, t, _, _ in page.links if k == 'attachment' and t.startswith('data:')}
+    n_specs = len(pdf.objects.numbers_with(b'/Filespec')) - len(got_files)
+    if n_specs != len(distinct):
+        return f'{n_specs} files embedded for the {len(distinct)} distinct URLs of the attachment links', None
     # (3) metadata
     want = reference_info(spec)
     got = [(k, ''.join(chr(int(c)) for c in v)) for k, v in sx.loads_line(pdf.info_wire())[0]]
@@ -875,12 +1025,13 @@ def oracle(spec):
     return None
 
 
-def reference_info(spec):
-    """The metadata clauses stated directly (first title, authors joined, …)."""
+def reference_meta(head):
+    """get_html_metadata stated directly: first title / description / generator / valid date, every author,
+    keywords split on commas, stripped of HTML white space, without repetition."""
     import re
     title = description = generator = created = modified = None
     authors, keywords = [], []
-    for el in spec['head']:
+    for el in head:
         if el[0] == 'title':
             if title is None:
                 title = el[1]
@@ -902,6 +1053,15 @@ def reference_info(spec):
             created = content if _valid_w3c(content) else None
         elif name == 'dcterms.modified' and modified is None:
             modified = content if _valid_w3c(content) else None
+    return {'title': title, 'description': description, 'generator': generator, 'keywords': keywords,
+            'authors': authors, 'created': created, 'modified': modified}
+
+
+def reference_info(spec):
+    """The metadata clauses stated directly (first title, authors joined, …)."""
+    meta = reference_meta(spec['head'])
+    title, description, generator = meta['title'], meta['description'], meta['generator']
+    authors, keywords, created, modified = meta['authors'], meta['keywords'], meta['created'], meta['modified']
     out = []
     if title:
         out.append(('Title', title))
@@ -980,12 +1140,18 @@ def shrink(spec, budget=40):
     return spec
 
 
+_SHRUNK = [0]
+
+
 def judge(meta, d):
     if 'spec' not in meta:
         return None
     found = oracle(_revive_spec(meta['spec']))
     if found and found[1] is None:
-        small = shrink(meta['spec'])
+        _SHRUNK[0] += 1
+        if _SHRUNK[0] > 2:
+            return found[0]
+        small = shrink(meta['spec'], budget=30)
         again = oracle(small)
         if again and again[1] is None:
             return f'{again[0]}  [reduced document: {doc_html(small)}]'
@@ -1057,3 +1223,22 @@ def replay_dests_not_byte_sorted():
     names = [str(k) for k in c18_pdf.deref(pdf.objects, pdf.catalog['Names']['Dests'])['Names'][::2]]
     keys = [n.encode('ascii') if n.isascii() else b'\xfe\xff' + n.encode('utf-16-be') for n in names]
     return keys != sorted(keys)
+
+
+def replay_pdf_string_cr():
+    """<title>a&#13;b</title>: the title read back from /Info must be the title of the document."""
+    docs.quiet()
+    document = docs.render(_BASE + '<title>a&#13;b</title><div>x</div>')
+    pdf = Pdf(document.write_pdf(uncompressed_pdf=True))
+    return str(pdf.info.get('Title')) != document.metadata.title
+
+
+def replay_embedded_files_not_sorted():
+    """Attachments b.txt then a.txt: the keys of /EmbeddedFiles must be sorted."""
+    from weasyprint import Attachment
+    docs.quiet()
+    document = docs.render(_BASE + '<div>x</div>')
+    pdf = Pdf(document.write_pdf(uncompressed_pdf=True, attachments=[
+        Attachment(string='1', name='b.txt'), Attachment(string='2', name='a.txt')]))
+    keys = [k.raw for k in c18_pdf.deref(pdf.objects, pdf.catalog['Names']['EmbeddedFiles'])['Names'][::2]]
+    return keys != sorted(keys) or len(set(keys)) != len(keys)
